@@ -6,6 +6,9 @@
 //! stopped.  Everything the user can observe being dropped carries a drop counter: module state,
 //! processing elements, task captures, message bodies.
 //!
+//! Script field `order`: bit 0 = the returned profiler is dropped before the Sim; bit 1 = everything alive at the
+//! stopping point is dropped BY UNWINDING (a panic raised while the Sim / runtime / result is alive, caught by
+//! catch_unwind) instead of normally.
 //! The simulation is executed THREE times in this process.  The records of the first two are printed:
 //!   ok res nrem time  created(proc elem task msg)  once(proc elem task msg)  notonce alive  nlog log*
 //! followed by one number: 1 iff the live heap (bytes or blocks, counted by a global allocator
@@ -24,7 +27,7 @@ use des::net::message::MessageBody;
 use des::net::processing::ProcessingStack;
 use des::prelude::*;
 use implrun::Cur;
-use std::cell::RefCell;
+use std::cell::{Cell, RefCell};
 use std::collections::HashSet;
 use std::alloc::{GlobalAlloc, Layout, System};
 use std::sync::atomic::{AtomicIsize, AtomicU64, Ordering::SeqCst};
@@ -380,6 +383,7 @@ struct Script {
     stop: u64,
     arg: u64,
     order: bool,
+    unwind: bool,
     hold: bool,
     mods: Vec<Cfg>,
     links: Vec<[u64; 5]>,
@@ -390,7 +394,9 @@ fn decode(nums: &[u64]) -> Script {
     let mut c = Cur::new(nums);
     let stop = c.next() % 6;
     let arg = c.next();
-    let order = c.next() % 2 == 1;
+    let order_raw = c.next();
+    let order = order_raw % 2 == 1;
+    let unwind = (order_raw / 2) % 2 == 1;
     let hold = c.next() % 2 == 1;
     let nmod = c.next().min(6);
     let mut mods = Vec::new();
@@ -416,7 +422,7 @@ fn decode(nums: &[u64]) -> Script {
         }
         injs.push([c.next(), c.next(), c.next()]);
     }
-    Script { stop, arg, order, hold, mods, links, injs }
+    Script { stop, arg, order, unwind, hold, mods, links, injs }
 }
 
 fn run_once(sc: &Script) -> Vec<u64> {
@@ -425,10 +431,14 @@ fn run_once(sc: &Script) -> Vec<u64> {
     NMSG.store(0, SeqCst);
     NTASK.store(0, SeqCst);
 
-    let mut res = 0u64;
-    let mut nrem = 0u64;
-    let mut time = 0u64;
-    {
+    let res = Cell::new(0u64);
+    let nrem = Cell::new(0u64);
+    let time = Cell::new(0u64);
+    // the whole life of the simulation; with the `unwind` bit everything that is still alive at the
+    // stopping point (the Sim / the runtime / the returned result, the caller's handles) is dropped
+    // by a panic unwinding out of this closure instead of by leaving scopes normally
+    let life = || {
+        let unwind = sc.unwind;
         let mut sim = Sim::new(());
         // modules; a parent index that does not name an earlier module means top level
         let mut paths: Vec<String> = Vec::new();
@@ -513,6 +523,10 @@ fn run_once(sc: &Script) -> Vec<u64> {
             let s = sim.freeze();
             drop(modrefs);
             drop(gates);
+            if unwind {
+                let _keep = s;
+                panic!("drop by unwinding");
+            }
             drop(s);
         } else {
             let mut b = Builder::seeded(1).quiet();
@@ -543,22 +557,39 @@ fn run_once(sc: &Script) -> Vec<u64> {
             drop(gates);
             match sc.stop {
                 1 => {
-                    nrem = rt.num_events_remaining() as u64;
-                    time = rt.sim_time().as_nanos() as u64;
+                    nrem.set(rt.num_events_remaining() as u64);
+                    time.set(rt.sim_time().as_nanos() as u64);
+                    if unwind {
+                        let _keep = rt;
+                        panic!("drop by unwinding");
+                    }
                     drop(rt);
                 }
                 5 => {
                     rt.start();
                     rt.dispatch_n_events(sc.arg as usize);
-                    nrem = rt.num_events_remaining() as u64;
-                    time = rt.sim_time().as_nanos() as u64;
+                    nrem.set(rt.num_events_remaining() as u64);
+                    time.set(rt.sim_time().as_nanos() as u64);
+                    if unwind {
+                        let _keep = rt;
+                        panic!("drop by unwinding");
+                    }
                     drop(rt);
                 }
                 _ => match rt.run() {
                     Ok((sim, t, prof)) => {
-                        res = 1;
-                        nrem = prof.remaining.len() as u64;
-                        time = t.as_nanos() as u64;
+                        res.set(1);
+                        nrem.set(prof.remaining.len() as u64);
+                        time.set(t.as_nanos() as u64);
+                        if unwind {
+                            // e.g. an assertion on the result fails while it is still alive
+                            if sc.order {
+                                let _keep = (prof, sim);
+                                panic!("drop by unwinding");
+                            }
+                            let _keep = (sim, prof);
+                            panic!("drop by unwinding");
+                        }
                         if sc.order {
                             drop(prof);
                             drop(sim);
@@ -568,15 +599,30 @@ fn run_once(sc: &Script) -> Vec<u64> {
                         }
                     }
                     Err(e) => {
-                        res = 2;
+                        res.set(2);
+                        if unwind {
+                            let _keep = e;
+                            panic!("drop by unwinding");
+                        }
                         drop(e);
                     }
                 },
             }
         }
+        if unwind {
+            let _keep = (held_mods, held_gates);
+            panic!("drop by unwinding");
+        }
         drop(held_mods);
         drop(held_gates);
+    };
+    if sc.unwind {
+        let r = std::panic::catch_unwind(std::panic::AssertUnwindSafe(life));
+        assert!(r.is_err(), "the simulation was to be dropped by unwinding");
+    } else {
+        life();
     }
+    let (res, nrem, time) = (res.get(), nrem.get(), time.get());
 
     // the record
     let d = DROPS.lock().unwrap();
